@@ -709,7 +709,7 @@ def check_property(pid, tier, seed):
         # (this is what notices a change in a part the contracts only ASSUME, e.g. what the package checksum covers)
         if not violations:
             w = find_witness(pid, deep=False)
-            cov["cheap_cross_check_against_real_code"] = {"finders": "witness library" + (", fault enumeration on the serialized package" if pid == "C09" else "") + (", executable next() contract at boundary counters" if pid == "C14" else "") + (", executable MatchResult contract at boundary quantities" if pid == "C02" else "") + (", forced-schedule sweep through the pause hook (amend: find | match | remove..push; 12 order kinds x 7 targets x 9 match sizes)" if pid in ("C03", "C12") else ""),
+            cov["cheap_cross_check_against_real_code"] = {"finders": "witness library" + (", fault enumeration on the serialized package" if pid == "C09" else "") + (", executable next() contract at boundary counters" if pid == "C14" else "") + (", executable MatchResult contract at boundary quantities" if pid == "C02" else "") + (", 400 pseudo-random boundary-biased contents through the assumed text / JSON / level-data / package legs (seed VERIF_SEED)" if pid in ("C10", "C19") else "") + (", forced-schedule sweep through the pause hook (amend: find | match | remove..push; 12 order kinds x 7 targets x 9 match sizes)" if pid in ("C03", "C12") else ""),
                                                           "refutation_found": bool(w), "stats": _WITNESS_STATS.get(pid)}
             if w:
                 rp = os.path.join(REPLAYS, "%s-crosscheck.json" % pid)
@@ -899,6 +899,18 @@ def find_witness(pid, deep=True):
         hits = [l for l in lines if l.startswith("REPLAY-VIOLATION") and "property=C02 " in l]
         if rc == 1 and hits:
             res = ({"kind": "match_result_contract"}, hits, "executable form of the MatchResult contract at boundary quantities")
+    if res is None and pid in ("C10", "C19"):
+        # assumed legs (text / JSON / level data / package forms): pseudo-random boundary-biased contents, deterministic per seed
+        sp = os.path.join(REPLAYS, "search-%s-legs.json" % pid)
+        seed = int(os.environ.get("VERIF_SEED", "0") or 0)
+        json.dump({"kind": "legs_fuzz", "seed": seed, "rounds": 5000 if deep else 400}, open(sp, "w"))
+        rc, lines, err = run_replay(sp, timeout_s=120)
+        _WITNESS_STATS[pid] = (err or "").strip().split("\n")[-1][:200]
+        found = [l for l in lines if l.startswith("REPLAY-FOUND ")]
+        hits = [l for l in lines if l.startswith("REPLAY-VIOLATION") and ("property=%s " % pid) in l and not any(("clause=%s " % c) in l for c in excl)]
+        if rc == 1 and found and hits:
+            fj = json.loads(found[0][len("REPLAY-FOUND "):])
+            res = ({"kind": "legs_fuzz", "seed": fj["seed"], "rounds": fj["rounds"], "last_round_content": fj.get("last_round_content")}, hits, "pseudo-random boundary-biased level / queue contents through the assumed text, JSON, level-data and package legs")
     if res is None and pid == "C14":
         sp = os.path.join(REPLAYS, "search-%s.json" % pid)
         json.dump({"kind": "uuid_contract"}, open(sp, "w"))
